@@ -679,6 +679,28 @@ class Main {
       "pong\nliftoff\n>===\n24",
       None,
     ),
+    demo(
+      "divisions whose operands do not change inside a loop: the loop never runs (5 / 0, MIN / -1 on run-time values and on constants that cannot be folded are never evaluated) or runs a few times",
+      r#"class Main {
+  function sumQuot(i: int, n: int, x: int, d: int, acc: int): int = if i >= n { acc } else { Main.sumQuot(i + 1, n, x, d, acc + x / d) }
+  function sumNeg(i: int, n: int, x: int, acc: int): int = if i >= n { acc } else { Main.sumNeg(i + 1, n, x, acc + x / (0 - 1)) }
+  function sumRem(i: int, n: int, x: int, acc: int): int = if i >= n { acc } else { Main.sumRem(i + 1, n, x, acc + x % 7 + x / 3) }
+  function sumConst(i: int, n: int, acc: int): int = if i >= n { acc } else { Main.sumConst(i + 1, n, acc + ((0 - 2147483647) - 1) / (0 - 1)) }
+  function sumZero(i: int, n: int, acc: int): int = if i >= n { acc } else { Main.sumZero(i + 1, n, acc + 7 / (1 - 1) + 7 % (2 - 2)) }
+  function main(): unit = {
+    let zero = "0".toInt();
+    let min = (0 - 2147483647) - "1".toInt();
+    let _ = Process.println(Str.fromInt(Main.sumQuot(0, zero, 5, zero, 1)));
+    let _ = Process.println(Str.fromInt(Main.sumNeg(0, zero, min, 2)));
+    let _ = Process.println(Str.fromInt(Main.sumRem(0, 3, 20, 0)));
+    let _ = Process.println(Str.fromInt(Main.sumNeg(0, 2, 21, 0)));
+    let _ = Process.println(Str.fromInt(Main.sumConst(0, zero, 3)));
+    let _ = Process.println(Str.fromInt(Main.sumZero(0, zero, 4)));
+  }
+}"#,
+      "1\n2\n36\n-42\n3\n4",
+      None,
+    ),
   ]
 }
 
